@@ -208,9 +208,15 @@ class ProgGen:
             # an associated type without bounds makes the macro panic (parse_quote of `Name`): kept rare
             i.assoc.append((a, [PP("serde", "Serialize"), P("Clone")] if rng.random() < 0.93 else []))
         i.attrs.append(sv_custom(msg="Empty", query="Empty"))
+        # forwarded type attributes on the trait: several per kind, kinds interleaved (as for contracts)
+        fwd = []
         for k in ("exec", "query", "sudo"):
-            if rng.random() < 0.2:
-                i.attrs.append(sv_msg_attr(k, "derive(PartialOrd)"))
+            r = rng.random()
+            for _ in range(0 if r < 0.7 else (1 if r < 0.85 else rng.choice([2, 3]))):
+                fwd.append(sv_msg_attr(k, rng.choice(["derive(PartialOrd)", "derive(Eq, Hash)", 'serde(deny_unknown_fields)',
+                                                      "derive(Ord)", 'doc = "forwarded"'])))
+        rng.shuffle(fwd)
+        i.attrs.extend(fwd)
         used = set()
         gens = ["Self::" + a for a in anames]
         for k, maxn in (("exec", 3), ("query", 3), ("sudo", 2)):
